@@ -124,12 +124,12 @@ theorem phys_curOf (N : Net L K) (s : Sol L K) (b : Branch L K) :
 
 /-! ### Kirchhoff's current law at the reference node -/
 
-theorem incidence_eq_dir (b : Branch L K) (n : L) (h : b.n1 ≠ b.n2) : incidence b n = b.dir n := by
-  unfold incidence Branch.dir
-  by_cases h1 : b.n1 = n
-  · have : b.n2 ≠ n := fun e => h (h1.trans e.symm)
-    simp [h1, this]
-  · by_cases h2 : b.n2 = n <;> simp [h1, h2]
+/-- the Spec's incidence and the code's `voltage_source_direction` are the same function
+(since the self-loop repair: +1 at the first terminal minus 1 at the second) -/
+theorem incidence_eq_dir_all (b : Branch L K) (n : L) : incidence b n = b.dir n := rfl
+
+theorem incidence_eq_dir (b : Branch L K) (n : L) (h : b.n1 ≠ b.n2) : incidence b n = b.dir n :=
+  incidence_eq_dir_all b n
 
 theorem sum_incidence_labels (N : Net L K) (b : Branch L K) (hb : b ∈ N.branches) :
     (N.nodeLabels.map fun n => incidence b n).sum = 0 := by
